@@ -1,7 +1,10 @@
 """C14: trapezoidal (src/trajtrap.c) and bell-shaped / double-S (src/trajbell.c) velocity-profile trajectories.
 
-Proof over R (coq/Properties_C14.v): an evaluation layer from a well-formedness predicate on the context alone and a
-planning layer (generator result > 0 on a feasible request => well-formed), see coq/C14/*.v.
+Proof over R (coq/Properties_C14.v, 24 theorems): an evaluation layer from a well-formedness predicate on the context
+alone (start/end state, hold outside [0,T], continuity across every phase boundary, vel = pos', acc = vel', jer = acc'
+inside phases, |vel|<=vm, |acc|<=am, |jer|<=jm) and a planning layer (generator result > 0 => well-formed, limits
+respected: all four trapezoid branches; all four double-S cruise variants and the three exits of the bisection loop by a
+loop invariant and induction on fuel), composed in C14_trap_property / C14_bell_property; see coq/C14/*.v.
 Tie: the SAME Gallina terms (coq/C14/TrapDefs.v, BellDefs.v) instantiated with Coq's primitive binary64 floats are run by
 vm_compute and compared BIT FOR BIT with the C built from the current tree (gcc -O2 -ffp-contract=off): generator return
 value + every context field, and pos/vel/acc(/jer) at query times placed on, one ulp around and between all phase
